@@ -60,19 +60,23 @@ def l2(rep, pa, tier, rng):
     conts = {}
     n = 0
     for p in cases:
+      for variant in ("twins", "distinct"):
+        # "twins": every annotator has the same units (equal segment and label) - equal units must still be told apart by
+        # their annotator; "distinct": labels differ across annotators
         sizes = tuple(p["sizes"])
-        if sizes not in conts:
+        if (sizes, variant) not in conts:
             c = pa.Continuum()
             anns = [f"v{a}" for a in range(len(sizes))]
             for a, k in enumerate(sizes):
                 c.add_annotator(anns[a])
                 for i in range(k):
-                    c.add(anns[a], Segment(float(3 * i), float(3 * i + 2)), rng.choice(["x", None, "y"]))
-            conts[sizes] = (c, anns, ar.units_by_annotator(c))
-        c, anns, units = conts[sizes]
+                    lab = ["x", None, "y"][i % 3] if variant == "twins" else f"l{a}{i}"
+                    c.add(anns[a], Segment(float(3 * i), float(3 * i + 2)), lab)
+            conts[(sizes, variant)] = (c, anns, ar.units_by_annotator(c))
+        c, anns, units = conts[(sizes, variant)]
         tuples = p["al"]
         n += 1
-        rep.case(key=json.dumps([sizes, tuples]), nontrivial=len(tuples) > 1)
+        rep.case(key=json.dumps([sizes, tuples, variant]), nontrivial=len(tuples) > 1)
         for cls, want, name in ((pa.Alignment, p["partition"], "Alignment"), (pa.alignment.SoftAlignment, p["cover"], "SoftAlignment")):
             got = {
                 "check()": outcome(lambda: build_alignment(pa, cls, c, units, anns, tuples).check()),
@@ -82,7 +86,7 @@ def l2(rep, pa, tier, rng):
             }
             for how, g in got.items():
                 if g != want:
-                    rep.violation(f"check.{name}.{how.split('(')[0]}", {"class": name, "how": how, "sizes": sizes, "tuples": tuples,
+                    rep.violation(f"check.{name}.{how.split('(')[0]}", {"class": name, "how": how, "sizes": sizes, "tuples": tuples, "continuum_variant": variant,
                                                                         "spec_outcome": want, "code_outcome": g})
     rep.traces += n
     rep.extra["l2_cases"] = n
